@@ -94,29 +94,101 @@ theorem C13_parallel_perm_serial (cls : Kwargs κ → Prog) (maxSteps : Nat) (pe
     List.Perm.flatMap_right _ h⟩
 
 /-- Each model is stepped until it stops or has taken `max_steps` steps, and what `batch_run` then reads is
-    the state of the same model constructed and stepped by hand `k ≤ max_steps` times.  (`step ∉ body`: the
-    user's step does not call the wrapped `step` again.) -/
+    the state of the same model constructed and stepped by hand (`hand p k` = the history `init ++ k × (step :: body)`
+    run on a fresh model) exactly `k = stepsTaken p max_steps ≤ max_steps` times — and `k` is pinned: at every
+    `j < k` the hand-stepped model was still running and below `max_steps` (no step is skipped, the loop does not
+    run on after a stop), at `k` it has stopped or reached `max_steps`, and `k` is the only number with these two
+    properties.  (`step ∉ body`: the user's step does not call the wrapped `step` again.) -/
 theorem C13_steps_taken (p : Prog) (maxSteps : Nat) :
     ((runModel p maxSteps).running = false ∨ maxSteps ≤ (runModel p maxSteps).steps) ∧
     (Op.step ∉ p.body → (runModel p maxSteps).steps ≤ max maxSteps (construct p).steps) ∧
     (Op.step ∉ p.body → Op.step ∉ p.init → (runModel p maxSteps).steps ≤ maxSteps) ∧
-    ∃ k ≤ maxSteps, runModel p maxSteps = run p.cfg (Collect.init p.cfg p.tables) (histOf p k) := by
-  refine ⟨loop_done p maxSteps maxSteps _ (by omega), fun h => loop_steps_le p maxSteps h _ _, ?_,
-    runModel_eq_run p maxSteps⟩
-  intro hb hi
-  have h0 : (construct p).steps = 0 := by
-    rw [construct, run_steps_eq _ _ _ hi]; rfl
-  have := loop_steps_le p maxSteps hb maxSteps (construct p)
-  rw [h0] at this
-  simpa [runModel] using this
+    ∃ k ≤ maxSteps, k = stepsTaken p maxSteps ∧
+      runModel p maxSteps = run p.cfg (Collect.init p.cfg p.tables) (histOf p k) ∧
+      (∀ j < k, (hand p j).running = true ∧ (hand p j).steps < maxSteps) ∧
+      ((hand p k).running = false ∨ maxSteps ≤ (hand p k).steps) ∧
+      ∀ k', (∀ j < k', (hand p j).running = true ∧ (hand p j).steps < maxSteps) →
+        ((hand p k').running = false ∨ maxSteps ≤ (hand p k').steps) → k' = k := by
+  refine ⟨loop_done p maxSteps maxSteps _ (by omega), fun h => loop_steps_le p maxSteps h _ _, ?_, ?_⟩
+  · intro hb hi
+    have h0 : (construct p).steps = 0 := by
+      rw [construct, run_steps_eq _ _ _ hi]; rfl
+    have := loop_steps_le p maxSteps hb maxSteps (construct p)
+    rw [h0] at this
+    simpa [runModel] using this
+  · obtain ⟨k, hk, he, hmin, hstop⟩ := runModel_eq_run_min p maxSteps
+    have hgo : ∀ s : State, goOn maxSteps s = true ↔ (s.running = true ∧ s.steps < maxSteps) := by
+      intro s; simp [goOn]
+    have hst : ∀ s : State, goOn maxSteps s = false ↔ (s.running = false ∨ maxSteps ≤ s.steps) := by
+      intro s
+      unfold goOn
+      cases s.running <;> simp
+    have hk' : stepsTaken p maxSteps = k := by
+      have h1 := (runModel_eq_hand p maxSteps)
+      -- both are the first hand-stepped state at which the loop condition fails
+      unfold stepsTaken
+      rw [find?_range_first _ _ k (by omega) (by simp [hstop]) (fun j hj => by simp [hmin j hj])]
+      rfl
+    refine ⟨k, hk, hk'.symm, he, fun j hj => (hgo _).mp (hmin j hj), (hst _).mp hstop, ?_⟩
+    intro k' hmin' hstop'
+    rcases Nat.lt_trichotomy k' k with h | h | h
+    · have := (hgo _).mp (hmin k' h)
+      rcases hstop' with h1 | h1
+      · rw [h1] at this; exact absurd this.1 (by simp)
+      · omega
+    · exact h
+    · have := hmin' k h
+      rcases (hst _).mp hstop with h1 | h1
+      · rw [h1] at this; exact absurd this.1 (by simp)
+      · omega
+
+/-- **Exactly these rows.**  For a run whose reporters never raise (`Total`) and a period ≠ 0, `_model_run_func`
+    returns — no row more, no row less, in this order — for each position `i` that `picks` selects among the stored
+    collections `snaps` of the model stepped by hand `stepsTaken` times (`C13_steps_taken`; the positions are
+    characterised by `C13_reported_collections`): one row per agent row recorded under that collection's step
+    (`rowsOfSnap`: RunId, iteration, Step = the collection's step, the kwargs, the model reporters evaluated on the
+    collection's snapshot, AgentID and agent values), or a single row without agent part when nothing is recorded. -/
+theorem C13_run_rows_exact (cls : Kwargs κ → Prog) (maxSteps : Nat) (period : Int) (hp : period ≠ 0) (r : Run κ)
+    (hT : Total (cls r.kwargs).cfg) :
+    let p := cls r.kwargs
+    let snaps := storedSnaps p.cfg (Collect.init p.cfg p.tables) (histOf p (stepsTaken p maxSteps))
+    ∃ ps, picks snaps.length period = .ok ps ∧
+      runRows cls maxSteps period r = .ok (ps.flatMap fun i => match snaps[i]? with
+        | some sn => rowsOfSnap p.cfg snaps r sn
+        | none => []) ∧
+      (∀ i ∈ ps, ∃ sn, snaps[i]? = some sn ∧ rowsOfSnap p.cfg snaps r sn ≠ []) ∧
+      runRows cls maxSteps period r = .ok (rowsSpec cls maxSteps period r) := by
+  intro p snaps
+  obtain ⟨ps, hps, hmem, _⟩ := picks_spec snaps.length period hp
+  have hr := runRows_eq_rowsSpec cls maxSteps period hp r hT
+  refine ⟨ps, hps, ?_, ?_, hr⟩
+  · rw [hr]; simp only [rowsSpec]
+    show Except.ok (match picks snaps.length period with
+      | .ok ps => ps.flatMap fun i => match snaps[i]? with
+        | some sn => rowsOfSnap p.cfg snaps r sn
+        | none => []
+      | .error _ => []) = _
+    rw [hps]
+  · intro i hi
+    have hlt := ((hmem i).mp hi).1
+    refine ⟨snaps[i], List.getElem?_eq_getElem hlt, ?_⟩
+    obtain ⟨row, hrow, _⟩ := rowsOfColl_has_row r snaps[i].steps (p.cfg.mreps.map fun m => m.eval snaps[i])
+      (if p.cfg.areps.isEmpty then []
+       else ((lastWith (fun x => x.steps == snaps[i].steps) snaps).map (agentRows p.cfg)).getD [])
+    intro e
+    unfold rowsOfSnap at e
+    rw [e] at hrow
+    simp at hrow
 
 /-- Every row of a run repeats the run's id, iteration and parameters, and its Step label, model-level
     values and agent-level values all come from one collection `sn` of the model stepped by hand: the label
     is the step at which `sn` was taken, the model values are the model reporters evaluated on `sn`, and the
     agent part — for a model that collects at most once per step value (C13's quantifier: at construction
-    and/or inside step) — is the id and the reporter values of an agent registered in `sn`. -/
+    and/or inside step) — is the id and the reporter values of an agent registered in `sn`.  `Total`: the
+    reporters never raise (C13's quantifier); the last example of this file shows what a collect that raised
+    and was swallowed by the model does to the rows. -/
 theorem C13_rows_from_one_collection (cls : Kwargs κ → Prog) (maxSteps : Nat) (period : Int) (r : Run κ)
-    (rows : List (BRow κ)) (h : runRows cls maxSteps period r = .ok rows) :
+    (hT : Total (cls r.kwargs).cfg) (rows : List (BRow κ)) (h : runRows cls maxSteps period r = .ok rows) :
     ∃ k ≤ maxSteps,
       let p := cls r.kwargs
       let snaps := storedSnaps p.cfg (Collect.init p.cfg p.tables) (histOf p k)
@@ -129,7 +201,7 @@ theorem C13_rows_from_one_collection (cls : Kwargs κ → Prog) (maxSteps : Nat)
     intro e
     subst e
     simp [runRows, picks] at h
-  obtain ⟨k, hk, he, hh⟩ := holds_runModel (cls r.kwargs) maxSteps
+  obtain ⟨k, hk, he, hh⟩ := holds_runModel (cls r.kwargs) hT maxSteps
   refine ⟨k, hk, he, ?_⟩
   obtain ⟨ps, hps, hr⟩ := runRows_of_holds cls maxSteps period hp r _ hh
   rw [hr] at h
@@ -162,7 +234,7 @@ theorem C13_rows_from_one_collection (cls : Kwargs κ → Prog) (maxSteps : Nat)
 /-- The run's last collected state is reported: if the model stepped by hand collected at all, some row
     carries the step label and the model values of its last collection (for every period ≠ 0). -/
 theorem C13_last_state_reported (cls : Kwargs κ → Prog) (maxSteps : Nat) (period : Int) (r : Run κ)
-    (rows : List (BRow κ)) (h : runRows cls maxSteps period r = .ok rows) :
+    (hT : Total (cls r.kwargs).cfg) (rows : List (BRow κ)) (h : runRows cls maxSteps period r = .ok rows) :
     ∃ k ≤ maxSteps,
       let p := cls r.kwargs
       let snaps := storedSnaps p.cfg (Collect.init p.cfg p.tables) (histOf p k)
@@ -173,7 +245,7 @@ theorem C13_last_state_reported (cls : Kwargs κ → Prog) (maxSteps : Nat) (per
     intro e
     subst e
     simp [runRows, picks] at h
-  obtain ⟨k, hk, he, hh⟩ := holds_runModel (cls r.kwargs) maxSteps
+  obtain ⟨k, hk, he, hh⟩ := holds_runModel (cls r.kwargs) hT maxSteps
   refine ⟨k, hk, he, ?_⟩
   intro sn hlast
   generalize hs : storedSnaps (cls r.kwargs).cfg (Collect.init (cls r.kwargs).cfg (cls r.kwargs).tables)
@@ -203,11 +275,95 @@ theorem C13_reported_collections (n : Nat) (period : Int) (hp : period ≠ 0) :
   obtain ⟨ps, h1, h2, h3⟩ := picks_spec n period hp
   exact ⟨ps, h1, h3, h2⟩
 
+/-- `batch_run` calls `_make_model_kwargs` once per iteration.  For re-iterable parameter values (everything C13
+    quantifies over: scalars, strings, lists, tuples, ranges, dicts) every call yields the same configurations, so
+    the work list is `runList kws iterations` — the one `C13_run_list` describes; an empty list / tuple / set is
+    rejected before any model is built (iterations ≥ 1), and `iterations = 0` runs nothing. -/
+theorem C13_iterations_reiterable (cls : Kwargs κ → Prog) (params : List (Nat × PVal κ)) (n maxSteps : Nat)
+    (period : Int) (hre : ∀ p ∈ params, ∀ vs, p.2 ≠ .once vs) :
+    (∀ kws, makeKwargs params = .ok kws →
+      batchRun cls params n maxSteps period = batchOrder cls maxSteps period (runList kws n)) ∧
+    (∀ e, makeKwargs params = .error e → batchRun cls params (n + 1) maxSteps period = .error e) ∧
+    batchRun cls params 0 maxSteps period = .ok [] := by
+  have hre' : ∀ p ∈ params, p.2.spent = p.2 := by
+    intro p hp
+    have := hre p hp
+    cases h2 : p.2 <;> simp_all [PVal.spent]
+  refine ⟨?_, ?_, rfl⟩
+  · intro kws hk
+    simp only [batchRun, iterLoop_reiterable params kws hre' hk n 0, runList, Nat.zero_add]
+  · intro e he
+    simp only [batchRun, iterLoop, he]
+
+/-- Outside the quantifier — what happens with a one-shot iterator (generator, `iter(...)`, `map`) among the parameter
+    values: the first call of `_make_model_kwargs` consumes it, every later call finds it empty and yields no
+    configuration.  Whatever `iterations ≥ 1` is asked for, the design is run exactly once (iteration 0, RunIds
+    `0 … |kws|-1`); the replications are silently missing. -/
+theorem C13_oneshot_parameters (cls : Kwargs κ → Prog) (params : List (Nat × PVal κ)) (n maxSteps : Nat)
+    (period : Int) (kws : List (Kwargs κ)) (hone : ∃ p ∈ params, ∃ vs, p.2 = .once vs)
+    (hk : makeKwargs params = .ok kws) :
+    batchRun cls params (n + 1) maxSteps period = batchOrder cls maxSteps period (runList kws 1) := by
+  simp only [batchRun, iterLoop_oneshot params kws hk hone n 0, runList]
+  simp
+
+/-- With `number_processes > 1` the result is the concatenation of the runs' row lists in completion order
+    (`results.extend(data)`; nothing is sorted): for every permutation `order` of a work list with distinct RunIds,
+    the rows of each run stay together and in the run's own order, and selecting the rows of RunId `i` out of the
+    parallel result gives exactly what the serial run gives — ordering the chunks by RunId restores the serial result. -/
+theorem C13_parallel_rows_by_run (cls : Kwargs κ → Prog) (maxSteps : Nat) (period : Int) (hp : period ≠ 0)
+    (runs order : List (Run κ)) (h : order.Perm runs) (hnd : (runs.map (·.runId)).Nodup) :
+    ∃ rows serial, batchOrder cls maxSteps period order = .ok rows ∧
+      batchOrder cls maxSteps period runs = .ok serial ∧
+      rows = order.flatMap (runRowsT cls maxSteps period) ∧
+      ∀ r ∈ runs, rows.filter (fun b => b.runId == r.runId) = runRowsT cls maxSteps period r ∧
+        serial.filter (fun b => b.runId == r.runId) = runRowsT cls maxSteps period r := by
+  refine ⟨_, _, batchOrder_total cls maxSteps period hp order, batchOrder_total cls maxSteps period hp runs, rfl, ?_⟩
+  intro r hr
+  have hnd' : (order.map (·.runId)).Nodup := (List.Perm.map _ h).nodup_iff.mpr hnd
+  exact ⟨filter_flatMap_key Run.runId BRow.runId _ (runRowsT_runId cls maxSteps period) order hnd' r (h.mem_iff.mpr hr),
+    filter_flatMap_key Run.runId BRow.runId _ (runRowsT_runId cls maxSteps period) runs hnd r hr⟩
+
+/-- Degenerate limits.  `max_steps = 0`: no step is taken, what is reported is what the constructor collected.
+    A `data_collection_period` at least as large as the number `n` of collections the run made: exactly the first
+    and the last collection are reported (once, if they are the same).  A run that never collected: no row. -/
+theorem C13_degenerate_limits (p : Prog) (n : Nat) (period : Int) :
+    runModel p 0 = construct p ∧
+    (0 < n → (n : Int) ≤ period → picks n period = .ok (if n = 1 then [0] else [0, n - 1])) ∧
+    (period ≠ 0 → picks 0 period = .ok []) := by
+  refine ⟨rfl, ?_, ?_⟩
+  · intro hn hle
+    have hp0 : period ≠ 0 := by omega
+    have hneg : ¬ period < 0 := by omega
+    have hpn : n ≤ period.toNat := by omega
+    unfold picks
+    simp only [hp0, if_false, hneg, filter_mod_range n period.toNat hn hpn]
+    by_cases h1 : n = 1
+    · subst h1; simp
+    · have : ¬ (0 = n - 1) := by omega
+      simp [h1, this]; omega
+  · intro hp0
+    unfold picks
+    by_cases hneg : period < 0 <;> simp [hp0, hneg]
+
+/-- **`batch_run` itself.**  For a class whose reporters never raise, re-iterable parameter values and a period ≠ 0,
+    `batch_run(number_processes=1)` returns exactly the concatenation, over the work list `runList kws iterations`
+    (`C13_run_list`: every kwargs dict once per iteration, RunIds `0 … N-1`), of each run's rows `rowsSpec` — the rows
+    `C13_run_rows_exact` writes out.  Nothing is dropped, duplicated or reordered. -/
+theorem C13_batch_run_exact (cls : Kwargs κ → Prog) (params : List (Nat × PVal κ)) (n maxSteps : Nat) (period : Int)
+    (hp : period ≠ 0) (hT : ∀ kw, Total (cls kw).cfg) (hre : ∀ p ∈ params, ∀ vs, p.2 ≠ .once vs)
+    (kws : List (Kwargs κ)) (hk : makeKwargs params = .ok kws) :
+    batchRun cls params n maxSteps period = .ok ((runList kws n).flatMap (rowsSpec cls maxSteps period)) := by
+  rw [(C13_iterations_reiterable cls params n maxSteps period hre).1 kws hk, batchOrder_total cls maxSteps period hp]
+  have : ∀ r : Run κ, runRowsT cls maxSteps period r = rowsSpec cls maxSteps period r := by
+    intro r
+    simp only [runRowsT, runRows_eq_rowsSpec cls maxSteps period hp r (hT r.kwargs)]
+  rw [funext this]
+
 /-! non-vacuity: a class that collects at construction and in step and stops early for one parameter value -/
 section Example
 def exCls (kw : Kwargs Nat) : Prog :=
   let n := (kw.lookup 0).getD 0
-  { cfg := { mreps := [.fn fun sn => .int sn.steps], areps := [.attr 0], treps := [],
+  { cfg := { mreps := [.fn fun sn => .ok (.int sn.steps)], areps := [.attr 0], treps := [],
              isAgentClass := fun _ => true, isSub := fun a b => a == b },
     tables := [], init := [.create 0 [(0, .int n)], .collect],
     body := [.aset 1 0 (.int 9), .collect, .stopAt n] }
@@ -219,6 +375,34 @@ example : (batchRun exCls [(0, PVal.sized [1, 5])] 1 3 (-1)).toOption.map (·.ma
     some [(0, 1, [.int 1], some (1, [.int 9])), (1, 3, [.int 3], some (1, [.int 9]))] := by rfl
 example : (batchRun exCls [(0, PVal.scalar 5)] 1 3 2).toOption.map (·.map fun b => (b.step, b.agent)) =
     some [(0, some (1, [.int 5])), (2, some (1, [.int 9])), (3, some (1, [.int 9]))] := by rfl
+example : (batchRun exCls [(0, PVal.once [1, 5])] 3 3 (-1)).toOption.map (·.map fun b => (b.runId, b.iteration, b.step)) =
+    some [(0, 0, 1), (1, 0, 3)] := by rfl
+example : (batchRun exCls [(0, PVal.iter [1, 5])] 2 3 (-1)).toOption.map (·.map fun b => (b.runId, b.iteration, b.step)) =
+    some [(0, 0, 1), (1, 0, 3), (2, 1, 1), (3, 1, 3)] := by rfl
+example : (batchRun exCls [(0, PVal.scalar 5)] 1 0 7).toOption.map (·.map fun b => (b.step, b.agent)) =
+    some [(0, some (1, [.int 5]))] := by rfl
+example : picks 5 9 = .ok [0, 4] := by rfl
+/-! the pinned step count and the written-out rows: the class stops at step `n` (n = 1: one step; n = 5 with
+    max_steps 3: three steps); `rowsSpec` of the second run, period 2: collections 0, 2 and the last (3) -/
+example : (stepsTaken (exCls [(0, 1)]) 3, stepsTaken (exCls [(0, 5)]) 3, stepsTaken (exCls [(0, 5)]) 0) = (1, 3, 0) := by decide
+example : (rowsSpec exCls 3 2 ⟨1, 0, [(0, 5)]⟩).map (fun b => (b.runId, b.step, b.model, b.agent)) =
+    [(1, 0, [.int 0], some (1, [.int 5])), (1, 2, [.int 2], some (1, [.int 9])), (1, 3, [.int 3], some (1, [.int 9]))] := by rfl
+example : Total (exCls [(0, 5)]).cfg :=
+  ⟨by intro r hr sn; simp [exCls] at hr; subst hr; rfl, by intro r hr sn ag; simp [exCls] at hr; subst hr; rfl,
+   by intro x hx; simp [exCls] at hx⟩
+/-! outside the quantifier: a `functools.partial` reporter that raises while attribute 0 is missing, in a model
+    whose step swallows the exception of its collect.  The first collect (step 1) leaves `m0 = [1]` and nothing
+    else; from then on position `i` of `m0` belongs to collection `i - 1` of `m1`: rows pair the model values of
+    two different collections, and the Step label is that of the later one. -/
+def exRaise (_ : Kwargs Nat) : Prog :=
+  { cfg := { mreps := [.fn fun sn => .ok (.int sn.steps),
+                       .part fun sn => match sn.attrs.lookup 0 with | some v => .ok v | none => .error .attr],
+             areps := [], treps := [], isAgentClass := fun _ => true, isSub := fun a b => a == b },
+    tables := [], init := [], body := [.collect, .mset 0 (.int 7)] }
+example : (runModel (exRaise []) 3).modelVars = [[.int 1, .int 2, .int 3], [.int 7, .int 7]] := by decide
+example : (runModel (exRaise []) 3).collSteps = [2, 3] := by decide
+example : (batchRun exRaise ([] : List (Nat × PVal Nat)) 1 3 1).toOption.map (·.map fun b => (b.step, b.model)) =
+    some [(2, [.int 1, .int 7]), (3, [.int 2, .int 7])] := by rfl
 end Example
 
 end Mesa.Batch
